@@ -48,18 +48,6 @@ impl Prop {
             _ => return None,
         })
     }
-
-    pub fn id(&self) -> &'static str {
-        match self {
-            Prop::C07 => "C07",
-            Prop::C08 => "C08",
-            Prop::C09 => "C09",
-            Prop::C10 => "C10",
-            Prop::C11 => "C11",
-            Prop::C12 => "C12",
-            Prop::C13 => "C13",
-        }
-    }
 }
 
 const WORLD_RULE: &str = "histories: per world 1 market (config drawn from production-like presets \
@@ -123,18 +111,26 @@ pub fn run(args: &Args) -> Option<i32> {
     let mut mon = Monitor::new(args, &rule(prop));
 
     // Workload (bounded by counts): shards x worlds x steps.
-    let n_shards: u64 = args.scale(256, 2048);
+    let n_shards: u64 = args.scale(256, 1536);
     let (worlds_q, worlds_t): (u64, u64) = match prop {
-        Prop::C07 => (200, 250),
-        Prop::C08 => (160, 200),
-        Prop::C09 => (160, 200),
-        Prop::C10 => (200, 250),
-        Prop::C11 => (160, 200),
-        Prop::C12 => (160, 200),
-        Prop::C13 => (160, 200),
+        Prop::C07 => (200, 200),
+        Prop::C08 => (160, 160),
+        Prop::C09 => (160, 160),
+        Prop::C10 => (200, 200),
+        Prop::C11 => (160, 160),
+        Prop::C12 => (160, 160),
+        Prop::C13 => (160, 160),
     };
-    let worlds = args.scale(worlds_q, worlds_t);
+    let mut worlds = args.scale(worlds_q, worlds_t);
     let steps = 260;
+    // Development overrides (a prefix of the tier's workload: same seeds per shard / world).
+    let mut n_shards = n_shards;
+    if let Some(n) = args.extra.get("shards").and_then(|s| s.parse::<u64>().ok()) {
+        n_shards = n.max(1);
+    }
+    if let Some(n) = args.extra.get("worlds").and_then(|s| s.parse::<u64>().ok()) {
+        worlds = n.max(1);
+    }
     let only: Option<String> = args.extra.get("inst").cloned();
 
     run_shards(&mut mon, args.threads, n_shards, |shard, m| {
@@ -157,6 +153,20 @@ program's revertible buffer does (checked separately by C21)");
     mon.assume("distinct_nontrivial is counted on the first 1500 non-trivial cases of every shard only (memory bound); counter nontrivial_cases has the total");
     mon.assume("fee-state updates (distribute position impact, borrowing, funding) run before position \
 operations as in update_fees_state, and additionally on their own at random points");
+
+    match prop {
+        Prop::C08 => mon.assume("an InsufficientFundingFeePayment event reports the shortfall cost_amount - paid_in_collateral_amount in the collateral token; amounts paid in the secondary token go to the holding claimable (vault out)"),
+        Prop::C09 => {
+            mon.assume("generated configs keep min_collateral_factor_for_liquidation <= min_collateral_factor (or unset)");
+            mon.assume("liquidation orders are submitted with size_delta_usd == position size (the program requires >= size; the model rejects > size without the cap flag), ADL / instruction-level part is checked by the store engine");
+            mon.assume("the price-impact value entering the BigInt recomputation is taken from the real position_price_impact (fixed-point power is C03's subject)");
+        }
+        Prop::C10 => mon.assume("the close uses DecreasePositionSwapType::NoSwap; received amounts are valued at the same execution prices: other-token amounts at their max price, the collateral shortfall at the collateral min price; slack = 2 base units of the more valuable token involved"),
+        Prop::C11 => mon.assume("the index token price is varied between p1 and p2 (componentwise p1.min<=p2.min, p1.max<=p2.max, not equal); the short token price is held fixed; the long token price is held fixed, or (in markets whose long token is the index token, half of the probes) set equal to the index price"),
+        Prop::C12 => mon.assume("the BigInt funding-rate oracle covers whole exponents (1,2,3 x UNIT); fractional exponents are not generated"),
+        Prop::C13 => mon.assume("errors of the borrowing *rate* computation (empty pool value, fixed-point power overflow) are counted (c13_rate_error_*) and not judged; the judged part is the subtraction open_interest*factor - total_borrowing"),
+        _ => {}
+    }
 
     // Minimum observations, otherwise the run is inconclusive.
     mon.require("op_increase_ok", 2_000);
